@@ -368,7 +368,7 @@ class SolverWrapper:
         self.add_constraint(product_var <= continuous_var - lb * (1 - binary_var), name=name + "_c")
         self.add_constraint(product_var >= continuous_var - ub * (1 - binary_var), name=name + "_d")
 
-    def add_integer_continuous_product_constraint(self, integer_var, continuous_var, product_var, lb, ub, name: str):
+    def add_integer_continuous_product_constraint(self, integer_var, continuous_var, product_var, lb, ub, name: str, integer_ub=None):
         """
         This function adds constraints to model the equality:
             integer_var * continuous_var = product_var
@@ -392,9 +392,14 @@ class SolverWrapper:
             The lower and upper bounds of the continuous variable.
         name : str
             The name of the constraint
+        integer_ub : float, optional
+            An upper bound of `integer_var`, if different from `ub` (it determines the number of bits of the
+            binary expansion of `integer_var`). Defaults to `ub`.
         """
 
-        num_bits = ceil(log2(ub + 1))
+        if integer_ub is None:
+            integer_ub = ub
+        num_bits = ceil(log2(integer_ub + 1))
         bits = list(range(num_bits))
 
         binary_vars = self.add_variables(
